@@ -57,6 +57,7 @@ for key, cls in commands.INDEX_MAPPING.items():
         p = sig.parameters.get(a)
         d = p.default if p is not None else '<missing>'
         if d is inspect.Parameter.empty: d = '<required>'
+        if cls.amqp_type(a) == 'table' and d == {}: d = None     # None and {} both denote the empty table
         defaults.append(d)
     try:
         inst = cls()
@@ -313,6 +314,40 @@ def body(i, ch):
 '''
 
 
+AFTER_USE = '''
+def body(k):
+    """every constructor default still equals the specification after instances have been used: built with
+    defaults, their containers filled in place, sent through the wire and decoded"""
+    ok = True
+    classes = sorted(commands.INDEX_MAPPING.items())[k::4]
+    for rnd in (0, 1):
+        for index, cls in classes:
+            m = spec.BY_INDEX[index]
+            kwargs = {}
+            for (a, t, d) in m["args"]:
+                if d is None and t != "table":
+                    kwargs[a] = {"bit": True, "shortstr": "x", "longstr": "x"}.get(t, 1)
+            f = cls(**kwargs)
+            for (a, t, d) in m["args"]:
+                v = getattr(f, a)
+                if a not in kwargs:
+                    ok = ok and v == d and (type(v) is type(d))
+                if isinstance(v, dict):
+                    v["x-used"] = [1, {"y": 2}]
+            g = frame.unmarshal(frame.marshal(f, 1))[2]
+            for (a, t, d) in m["args"]:
+                v = getattr(g, a)
+                if isinstance(v, dict):
+                    v["x-decoded"] = True
+            h = cls(**kwargs)
+            for (a, t, d) in m["args"]:
+                if a not in kwargs:
+                    w = getattr(h, a)
+                    ok = ok and w == d and type(w) is type(d)
+    return ok
+'''
+
+
 def partitions(tier, seed):
     parts = []
     pre = common.PRELUDE + '\nSPEC_INDEXES = sorted(spec.BY_INDEX)\n'
@@ -324,6 +359,11 @@ def partitions(tier, seed):
                           timeout=300, family='symbolic_method_index',
                           bound='every method index in [0x%08x, 0x%08x)' % (a, b),
                           rep={'i': a + 10 if a else 0x3c0028, 'ch': 1}))
+    for k in range(4):
+        parts.append(Part(name='defaults_after_use_%d' % k, params=[('k', 'int')], pre=[], body=AFTER_USE,
+                          prelude=common.PRELUDE, timeout=60, family='defaults_after_use',
+                          bound='16 classes: defaults re-checked after instances were mutated in place and '
+                                'round-tripped (concrete history, twice)', rep={'k': k}, concrete_only=True))
     return parts
 
 
